@@ -1,5 +1,6 @@
 /-
-  C06 — translation tie for the root package (bound.go, point.go, ring.go).
+  C06 — translation tie for the root package (bound.go, point.go, ring.go, and the `Bound()` / `Equal()`
+  loops of multi_point.go, line_string.go, polygon.go, multi_line_string.go, multi_polygon.go).
   `Generated/BoundGo.lean` is REGENERATED from /repo on every run by the Go→Lean translator in
   harness/cmd/factgen/translate_float.go.  The theorems below prove that each regenerated
   definition IS the hand-written model definition (of `Orb.Core`, and of the copies of
@@ -10,6 +11,7 @@
 import Orb.Core
 import Orb.Planar
 import Orb.TileGeo
+import Orb.LoopForms
 import Generated.BoundGo
 
 namespace Orb.C06Tie
@@ -80,11 +82,148 @@ theorem ringOrientation_tie (r : List (Pt α)) (h0 : ¬ (0 : α) < 0) :
     simp only [Generated.BoundGo.ringOrientation, orientation, orientArea, orientArea_go_eq]
     simp
 
+/-! ### multi_point.go, line_string.go, ring.go, polygon.go, multi_line_string.go, multi_polygon.go
+
+The loops of the slice kinds.  `Bound()`: `for _, p := range mp { b = b.Extend(p) }` is a `List.foldl`,
+`for i := 1; i < len(mls); i++ { bound = bound.Union(mls[i].Bound()) }` a `List.foldl` over
+`mls.drop 1`; the package variable `emptyBound` is the explicit parameter `eb`, as in the models.
+`Equal()`: the length guard followed by `for i := range mp { if !mp[i].Equal(o[i]) { return false } }`
+is the returning loop `foldlRet` over the indices, which `Orb.LoopForms.equal_loop` turns into
+`all2` ("same length and pointwise"), the shape of `Core.ptsEq` / `ptssEq` / `ptsssEq`. -/
+
+open Orb.LoopForms
+
+theorem multiPointBound_tie (eb : Bound α) (mp : List (Pt α)) :
+    Generated.BoundGo.multiPointBound eb mp = multiPointBound eb mp := by
+  cases mp with
+  | nil => rfl
+  | cons p t => rfl
+
+theorem lineStringBound_tie (eb : Bound α) (ls : List (Pt α)) :
+    Generated.BoundGo.lineStringBound eb ls = multiPointBound eb ls := multiPointBound_tie eb ls
+
+theorem ringBound_tie (eb : Bound α) (r : List (Pt α)) :
+    Generated.BoundGo.ringBound eb r = multiPointBound eb r := multiPointBound_tie eb r
+
+theorem polygonBound_tie (eb : Bound α) (p : List (List (Pt α))) :
+    Generated.BoundGo.polygonBound eb p = polygonBound eb p := by
+  cases p with
+  | nil => rfl
+  | cons r t => exact ringBound_tie eb r
+
+theorem multiLineStringBound_tie (eb : Bound α) (mls : List (List (Pt α))) :
+    Generated.BoundGo.multiLineStringBound eb mls = multiLineStringBound eb mls := by
+  cases mls with
+  | nil => rfl
+  | cons l rest =>
+    have hf : (fun (bound : Bound α) (x : List (Pt α)) =>
+        Generated.BoundGo.boundUnion bound (Generated.BoundGo.lineStringBound eb x))
+        = (fun b l => b.union (multiPointBound eb l)) := by
+      funext b l; rw [lineStringBound_tie]; rfl
+    show List.foldl _ (Generated.BoundGo.lineStringBound eb l) rest = _
+    rw [hf, lineStringBound_tie]; rfl
+
+theorem multiPolygonBound_tie (eb : Bound α) (mp : List (List (List (Pt α)))) :
+    Generated.BoundGo.multiPolygonBound eb mp = multiPolygonBound eb mp := by
+  cases mp with
+  | nil => rfl
+  | cons p rest =>
+    have hf : (fun (bound : Bound α) (x : List (List (Pt α))) =>
+        Generated.BoundGo.boundUnion bound (Generated.BoundGo.polygonBound eb x))
+        = (fun b p => b.union (polygonBound eb p)) := by
+      funext b p; rw [polygonBound_tie]; rfl
+    show List.foldl _ (Generated.BoundGo.polygonBound eb p) rest = _
+    rw [hf, polygonBound_tie]; rfl
+
+/-- "same length and pointwise `ptEq`" is the model's recursion -/
+theorem all2_ptsEq (xs ys : List (Pt α)) :
+    all2 (fun a b => Generated.BoundGo.pointEqual a b) xs ys = ptsEq xs ys := by
+  induction xs generalizing ys with
+  | nil => cases ys <;> rfl
+  | cons x t ih =>
+    cases ys with
+    | nil => rfl
+    | cons y u => simp only [all2, ptsEq, ih]; rfl
+
+theorem multiPointEqual_tie (mp o : List (Pt α)) :
+    Generated.BoundGo.multiPointEqual mp o = ptsEq mp o := by
+  rw [← all2_ptsEq]
+  exact equal_loop (fun a b => Generated.BoundGo.pointEqual a b) mp o ⟨0, 0⟩ ⟨0, 0⟩
+
+theorem lineStringEqual_tie (ls o : List (Pt α)) :
+    Generated.BoundGo.lineStringEqual ls o = ptsEq ls o := multiPointEqual_tie ls o
+
+theorem ringEqual_tie (r o : List (Pt α)) :
+    Generated.BoundGo.ringEqual r o = ptsEq r o := multiPointEqual_tie r o
+
+theorem all2_ptssEq (f : List (Pt α) → List (Pt α) → Bool) (hf : ∀ a b, f a b = ptsEq a b)
+    (xs ys : List (List (Pt α))) : all2 f xs ys = ptssEq xs ys := by
+  induction xs generalizing ys with
+  | nil => cases ys <;> rfl
+  | cons x t ih =>
+    cases ys with
+    | nil => rfl
+    | cons y u => simp only [all2, ptssEq, ih, hf]
+
+theorem polygonEqual_tie (p o : List (List (Pt α))) :
+    Generated.BoundGo.polygonEqual p o = ptssEq p o := by
+  rw [← all2_ptssEq (fun a b => Generated.BoundGo.ringEqual a b) ringEqual_tie]
+  exact equal_loop (fun a b => Generated.BoundGo.ringEqual a b) p o [] []
+
+theorem multiLineStringEqual_tie (mls o : List (List (Pt α))) :
+    Generated.BoundGo.multiLineStringEqual mls o = ptssEq mls o := by
+  rw [← all2_ptssEq (fun a b => Generated.BoundGo.lineStringEqual a b) lineStringEqual_tie]
+  exact equal_loop (fun a b => Generated.BoundGo.lineStringEqual a b) mls o [] []
+
+theorem all2_ptsssEq (f : List (List (Pt α)) → List (List (Pt α)) → Bool) (hf : ∀ a b, f a b = ptssEq a b)
+    (xs ys : List (List (List (Pt α)))) : all2 f xs ys = ptsssEq xs ys := by
+  induction xs generalizing ys with
+  | nil => cases ys <;> rfl
+  | cons x t ih =>
+    cases ys with
+    | nil => rfl
+    | cons y u => simp only [all2, ptsssEq, ih, hf]
+
+theorem multiPolygonEqual_tie (mp o : List (List (List (Pt α)))) :
+    Generated.BoundGo.multiPolygonEqual mp o = ptsssEq mp o := by
+  rw [← all2_ptsssEq (fun a b => Generated.BoundGo.polygonEqual a b) polygonEqual_tie]
+  exact equal_loop (fun a b => Generated.BoundGo.polygonEqual a b) mp o [] []
+
+/-- the `Equal` / `Bound` methods of the slice kinds are the cases of `Core.equal` / `Core.bound` -/
+theorem equal_kinds_tie :
+    (∀ p q : List (Pt α), Generated.BoundGo.multiPointEqual p q = Core.equal (.multiPoint p) (.multiPoint q)) ∧
+    (∀ p q : List (Pt α), Generated.BoundGo.lineStringEqual p q = Core.equal (.lineString p) (.lineString q)) ∧
+    (∀ p q : List (Pt α), Generated.BoundGo.ringEqual p q = Core.equal (.ring p) (.ring q)) ∧
+    (∀ p q : List (List (Pt α)), Generated.BoundGo.polygonEqual p q = Core.equal (.polygon p) (.polygon q)) ∧
+    (∀ p q : List (List (Pt α)),
+      Generated.BoundGo.multiLineStringEqual p q = Core.equal (.multiLineString p) (.multiLineString q)) ∧
+    (∀ p q : List (List (List (Pt α))),
+      Generated.BoundGo.multiPolygonEqual p q = Core.equal (.multiPolygon p) (.multiPolygon q)) :=
+  ⟨multiPointEqual_tie, lineStringEqual_tie, ringEqual_tie, polygonEqual_tie, multiLineStringEqual_tie,
+    multiPolygonEqual_tie⟩
+
+theorem bound_kinds_tie (eb : Bound α) :
+    (∀ p : List (Pt α), Generated.BoundGo.multiPointBound eb p = Core.bound eb (.multiPoint p)) ∧
+    (∀ p : List (Pt α), Generated.BoundGo.lineStringBound eb p = Core.bound eb (.lineString p)) ∧
+    (∀ p : List (Pt α), Generated.BoundGo.ringBound eb p = Core.bound eb (.ring p)) ∧
+    (∀ p : List (List (Pt α)), Generated.BoundGo.polygonBound eb p = Core.bound eb (.polygon p)) ∧
+    (∀ p : List (List (Pt α)), Generated.BoundGo.multiLineStringBound eb p = Core.bound eb (.multiLineString p)) ∧
+    (∀ p : List (List (List (Pt α))), Generated.BoundGo.multiPolygonBound eb p = Core.bound eb (.multiPolygon p)) :=
+  ⟨fun p => by rw [Core.bound]; exact multiPointBound_tie eb p,
+   fun p => by rw [Core.bound]; exact lineStringBound_tie eb p,
+   fun p => by rw [Core.bound]; exact ringBound_tie eb p,
+   fun p => by rw [Core.bound]; exact polygonBound_tie eb p,
+   fun p => by rw [Core.bound]; exact multiLineStringBound_tie eb p,
+   fun p => by rw [Core.bound]; exact multiPolygonBound_tie eb p⟩
+
 /-- every function the translator is asked for in the root package was translated -/
 theorem all_translated_BoundGo : Generated.BoundGo.translated =
     ["boundTop", "boundBottom", "boundRight", "boundLeft", "boundLeftTop", "boundRightBottom", "boundIsEmpty",
      "boundContains", "boundExtend", "boundUnion", "boundIntersects", "boundCenter", "boundEqual", "boundToRing",
-     "pointX", "pointY", "pointLon", "pointLat", "pointEqual", "ringClosed", "ringOrientation"] := by
+     "pointX", "pointY", "pointLon", "pointLat", "pointEqual", "ringClosed", "ringOrientation",
+     "multiPointBound", "multiPointEqual", "lineStringBound", "lineStringEqual", "ringBound", "ringEqual",
+     "polygonBound", "polygonEqual", "multiLineStringBound", "multiLineStringEqual", "multiPolygonBound",
+     "multiPolygonEqual"] := by
   decide
 
 end Orb.C06Tie
